@@ -43,6 +43,8 @@ ItemText(k, it) ==
     [] it[1] = "range"  -> NatChars(it[2]) \o <<"-">> \o NatChars(it[3])
     [] it[1] = "name"   -> Cased(NameOf(k, it[2]), it[3])
     [] it[1] = "nrange" -> Cased(NameOf(k, it[2]), it[4]) \o <<"-">> \o Cased(NameOf(k, it[3]), 7 - it[4])
+    [] it[1] = "nvrange" -> Cased(NameOf(k, it[2]), it[4]) \o <<"-">> \o NatChars(it[3])      \* "Fri-7"
+    [] it[1] = "vnrange" -> NatChars(it[2]) \o <<"-">> \o Cased(NameOf(k, it[3]), it[4])      \* "1-Fri"
 ItemDen(k, it) ==
   CASE it[1] = "star"   -> FullSet(k)
     [] it[1] = "step"   -> {v \in FullSet(k) : (v - FieldMin[k]) % it[2] = 0}
@@ -50,6 +52,7 @@ ItemDen(k, it) ==
     [] it[1] = "range"  -> {NormDow(k, v) : v \in it[2]..it[3]}
     [] it[1] = "name"   -> {it[2]}
     [] it[1] = "nrange" -> it[2]..it[3]
+    [] it[1] \in {"nvrange", "vnrange"} -> {NormDow(k, v) : v \in it[2]..it[3]}
 
 NumItems(k) == {<<"star">>} \cup {<<"step", n>> : n \in 1..(FieldMax[k] + 1)}
                \cup {<<"val", v>> : v \in FieldMin[k]..RawMax(k)}
@@ -57,6 +60,9 @@ NumItems(k) == {<<"star">>} \cup {<<"step", n>> : n \in 1..(FieldMax[k] + 1)}
 NameItems(k) == IF k < 4 THEN {}
                 ELSE {<<"name", v, m>> : v \in FullSet(k), m \in 0..7}
                      \cup {<<"nrange", a, b, m>> : a \in FullSet(k), b \in FullSet(k), m \in {0, 3, 5, 7}}
+                     \* one end a name, the other a number: both are values of the documented range
+                     \cup {<<"nvrange", a, b, m>> : a \in FullSet(k), b \in FieldMin[k]..RawMax(k), m \in {0, 1, 6}}
+                     \cup {<<"vnrange", a, b, m>> : a \in FieldMin[k]..RawMax(k), b \in FullSet(k), m \in {0, 2, 7}}
 ReducedItems(k) == {<<"star">>, <<"step", 2>>, <<"step", FieldMax[k] + 1>>, <<"val", FieldMin[k]>>, <<"val", RawMax(k)>>,
                     <<"range", FieldMin[k], FieldMin[k] + 1>>, <<"range", FieldMax[k] - 1, RawMax(k)>>,
                     <<"range", FieldMin[k] + 2, FieldMin[k] + 4>>}
@@ -94,7 +100,7 @@ ProbeOf(text) == LET r == Recognize(text) IN IF r.k = "ok" /\ ~Satisfiable(r.set
 ParseCase(text, probe) == [op |-> "cron_parse", expr |-> text, probe |-> probe, exp |-> Outcome(text, probe)]
 
 \* generator = recognizer on every well-formed single item (a <= b for ranges)
-WellFormed(it) == (it[1] \in {"range", "nrange"}) => it[2] <= it[3]
+WellFormed(it) == (it[1] \in {"range", "nrange", "nvrange", "vnrange"}) => it[2] <= it[3]
 GrammarBad(z) == {<<k, it>> \in UNION {{<<k, it>> : it \in NumItems(k) \cup NameItems(k)} : k \in 1..5} :
                     /\ WellFormed(it)
                     /\ LET r == Recognize(ExprWith(k, ItemText(k, it)))
@@ -161,13 +167,17 @@ HistExprs == << <<"*", " ", "*", " ", "*", " ", "*", " ", "*">>,
                 <<"3", "0", " ", "2", " ", "*", " ", "f", "e", "b", " ", "1">>,
                 <<"0", " ", "0", " ", "1", " ", "1", " ", "*">>,
                 <<"3", "0", " ", "1", "2", " ", "*", " ", "*", " ", "m", "o", "n">>,
-                <<"0", " ", "1", "8", " ", "*", " ", "*", " ", "3">> >>
+                <<"0", " ", "1", "8", " ", "*", " ", "*", " ", "3">>,
+                \* 7 as both ends of a weekday range is Sunday alone, with and without a day-of-month beside it
+                <<"0", " ", "0", " ", "*", " ", "*", " ", "7", "-", "7">>,
+                <<"0", " ", "0", " ", "1", "5", " ", "*", " ", "7", "-", "7">>,
+                <<"3", "0", " ", "6", " ", "*", " ", "*", " ", "5", "-", "7">> >>
 HistStarts == << <<Ymd2Dn(2022, 1, 1), 0>>, <<Ymd2Dn(2023, 12, 31), 86399>>, <<Ymd2Dn(2024, 2, 28), 86340>>,
                  <<Ymd2Dn(2024, 2, 29), 43259>>, <<Ymd2Dn(2021, 3, 31), 61201>>, <<Ymd2Dn(1970, 1, 1), 1>>,
                  <<Ymd2Dn(2100, 2, 28), 86399>>, <<Ymd2Dn(2022, 5, 13), 14700>>, <<Ymd2Dn(2022, 10, 30), 3599>>,
                  <<Ymd2Dn(2399, 12, 31), 86340>>, <<Ymd2Dn(2022, 4, 30), 86399>>, <<Ymd2Dn(2025, 6, 15), 43200>>,
                  \* around the leap day that has no successor four years later (2100 is a common year)
-                 <<Ymd2Dn(2096, 2, 29), 60>>, <<Ymd2Dn(2097, 6, 1), 0>>, <<Ymd2Dn(2099, 12, 31), 86399>>,
+                 <<Ymd2Dn(2096, 2, 29), 60>>, <<Ymd2Dn(2096, 2, 28), 86399>>, <<Ymd2Dn(2096, 2, 29), 30>>, <<Ymd2Dn(2097, 6, 1), 0>>, <<Ymd2Dn(2099, 12, 31), 86399>>,
                  \* a Monday and a Wednesday: one and two years later the same month and day fall on other weekdays
                  <<Ymd2Dn(2024, 1, 15), 28800>>, <<Ymd2Dn(2023, 3, 1), 0>> >>
 AdvSeqs == IF Thorough
